@@ -87,9 +87,9 @@ m = {
     'setup_cmd': './setup.sh',
     'hooks': {
         'guard': 'john_yu_sm9_core_verif',
-        'enable': 'executor/.cargo/config.toml sets rustflags = ["--cfg", "john_yu_sm9_core_verif", "--cfg", "john_yu_sm9_core_verif_lines"] (the second guard is optional: vlib/runner.py falls back to the first alone if the line-function wrappers no longer compile); sanitizer builds pass the same --cfg flags through RUSTFLAGS',
+        'enable': 'executor/.cargo/config.toml sets rustflags = ["--cfg", "john_yu_sm9_core_verif", "--cfg", "john_yu_sm9_core_verif_lines"] (the second guard is optional). If that build fails because a private item the hooks name was refactored, vlib/runner.py probes which hook groups still compile and adds --cfg john_yu_sm9_core_verif_skip_<group> (raw, sop, pow, fexp, prep, consts in /repo; f4x, f12x, powfr, fexpm, ml, fqx in the executor) for those that do not, down to a build without any hook (--cfg sm9exec_nohooks); sanitizer and Miri builds pass the same --cfg flags through RUSTFLAGS',
         'baseline_off_cmd': 'cd /repo && cargo test --workspace --no-fail-fast --offline',
-        'source_commits': ['55aa66b', '6be3d24', '88b3421'],
+        'source_commits': ['55aa66b', '6be3d24', '88b3421', 'fcde2ce'],
         'add_only': True,
     },
     'engines': [{
